@@ -605,7 +605,7 @@ func (sc *siteScan) assertSpecial(pg *PG, s *PState, B *Term, st *Site) (ok bool
 		}
 	}
 	// frozen table: one entry
-	if st.Why == "string" && globMatch("ncg/signature/jws.getSignedAttributes(**)#0[\"io.cncf.notary.signingScheme\"]", B.Key()) {
+	if st.Why == "string" && globMatch("ncg/signature/jws.*(**)#0[\"io.cncf.notary.signingScheme\"]", B.Key()) && B.Args[0].Op == "res" && B.Args[0].Args[0].Op == "call" && producesHeaderMap(c, B.Args[0].Args[0].Name) {
 		callKey := strings.TrimSuffix(B.Key(), "#0[\"io.cncf.notary.signingScheme\"]")
 		kind, omit, n := jsonFieldKind(c, "/signature/jws", "io.cncf.notary.signingScheme")
 		if n != 1 || kind != "string" || omit {
@@ -1793,4 +1793,33 @@ func coseKeyRestriction(c *Check, rule string) {
 		}}
 		c.within(pg, rule, "COSE: caller-supplied attribute key restricted before it is used as a map key", "an interface value from the request is hashed or compared only after its dynamic type was restricted to an integer kind or string (an unhashable key would panic)", X, AnyOf(tys...), mapUse)
 	}
+}
+
+// producesHeaderMap: the in-module function returns (map[string]any, error)
+// and builds the map from the protected-header struct (it mentions that struct
+// type) - the producer of the JWS signed-attribute map, whatever its name.
+func producesHeaderMap(c *Check, name string) bool {
+	fs := c.P.fn(name)
+	if fs == nil {
+		return false
+	}
+	sig := fs.Obj.Type().(*types.Signature)
+	if sig.Results().Len() != 2 || c.P.typeStr(sig.Results().At(0).Type()) != "map[string]interface{}" && c.P.typeStr(sig.Results().At(0).Type()) != "map[string]any" {
+		return false
+	}
+	uses := false
+	info := fs.Pkg.TypesInfo
+	ast.Inspect(fs.Decl.Body, func(n ast.Node) bool {
+		if cl, ok := n.(*ast.CompositeLit); ok {
+			if t := info.TypeOf(cl); t != nil {
+				for _, nm := range jsonNames(t) {
+					if nm == "io.cncf.notary.signingScheme" {
+						uses = true
+					}
+				}
+			}
+		}
+		return !uses
+	})
+	return uses
 }
